@@ -1,4 +1,4 @@
-import DaliVerif.Proofs.GearSeqC07
+import DaliVerif.Proofs.GearSeqC07k
 /-!
 # C07 — commissioning terminates and assigns distinct, permitted short addresses
 
@@ -8,22 +8,27 @@ the real generator, every command / progress / sleep object); the specification 
 `Spec/GearBus.lean`; the property's clauses as a decidable check are `Spec/GearComm.lean`
 (`commCheck`), evaluated on every lock-step run.
 
-**What is proved here** (for every population, every interval, every environment):
-`findNext_spec`, `findNext_run`, `commissioning_ends_with_terminate`, `commissioning_all_disabled`.
+**What is proved here**, for every bus size, every population, every stream of random draws
+(hypotheses: random addresses and draws are 24-bit, `WF`; the permitted list is duplicate-free within 0..63):
 
-**What is not proved yet** (full statements, kept visible; checked by `commCheck` on sampled runs only):
+* the search: `findNext_spec`, `findNext_run(_full)`, `bus_counts` (the bus is a counting environment),
+  `findNext_on_bus`;
+* one iteration: `inner_step`; one round: `round_inv`;
+* the whole sequence, clause by clause: `commissioning_ends_with_terminate`, `commissioning_all_disabled`,
+  `commissioning_addresses` (distinct / permitted / not in use / none in a dry run),
+  `commissioning_count` (every participant gets an address while permitted addresses remain),
+  `commissioning_others` (non-participants keep their address), `commissioning_dry` (a dry run changes no
+  short address), `commissioning_raise` + `unconfirmed_verify_raises` (ProgramShortAddressFailure), `commissioning_bound` (command bound),
+  `commissioning_holds` (single-round runs: the participants hold exactly the addresses handed out),
+  `commissioning_terminates` (the model's round budget is not exhausted once the participants' draws of some
+  round are pairwise distinct);
+* all of them at once: `commissioning_spec` — `commCheck … = []` for every run that does not exhaust the round
+  budget (i.e. whose last round is clash-free), and `commissioning_spec_separating` under the explicit hypothesis
+  on the draw streams.
 
-* `round_inv` — one RANDOMISE round against a bus preserves: addresses handed out so far are
-  pairwise distinct, lie in the permitted list (in its order), avoid every address that answered
-  QUERY CONTROL GEAR PRESENT, each was programmed into the unit found at that step,
-  non-participants are untouched, `|handed out| = min(#found, |permitted|)`.
-* `commissioning_spec` — for every bus, every duplicate-free permitted list ⊆ 0..63, both
-  re-address modes, dry-run on/off and every finite list of rounds whose last round is clash-free:
-  `commCheck b avail readdress dry (runBus (commissioning rounds avail readdress dry) b) = []`
-  (clauses ends / raise / distinct / permitted / inuse / others / dry / count / holds / bound).
-* `bus_counts` — the specification bus restricted to SEARCHADDR H/M/L + COMPARE is a counting
-  environment `cstep R` for `R` = random addresses of its ENABLED units (the refinement that
-  carries `findNext_run` over to `runBus`).
+**What is not claimed** (DESIGN §6): that the participants' *final* addresses are pairwise distinct after two or
+more rounds — they need not be (the re-draw hazard; last `example` below); the property's letter (addresses
+*handed out* are distinct) is what is proved.
 -/
 namespace DaliVerif.Props.C07
 open DaliVerif GearSeq
@@ -76,6 +81,306 @@ theorem commissioning_all_disabled (b : Bus) (rounds : Nat) (av : Option (List N
     ∀ u ∈ (runBus (commissioning rounds av re dry) b).st, u.init = .disabled :=
   all_disabled_of_endsT _ b (commissioning_endsT Bus.exec rounds av re dry b) r h
 
+/-- **bus_counts** — the specification bus restricted to SEARCHADDR H/M/L + COMPARE *is* a counting
+environment: on a bus whose units in initialisation mode all hold the search address `s` (`Synced`), each of
+these commands is answered exactly as `cstep R` answers it, `R = enR b` the random addresses of the ENABLED
+units, and the relation (`Synced`, same `R`) is preserved.  (Through `run_sim` this carries every run of
+`_find_next` over to `runBus`: `findNext_on_bus`.) -/
+theorem bus_counts (b : Bus) (s : Nat) (c : Cmd) (hc : IsSearch c) (hs : Synced b s) :
+    (Bus.exec b c).1 = (cstep (enR b) s c).1 ∧ Synced (Bus.exec b c).2 (cstep (enR b) s c).2 ∧
+      enR (Bus.exec b c).2 = enR b := by
+  obtain ⟨h1, h2, h3⟩ := bus_counts_aux (enR b) b s c hc ⟨hs, rfl⟩
+  exact ⟨h1, h2, h3⟩
+
+/-- **findNext_on_bus** — `_find_next(low, 0xFFFFFF)` run against *any* bus (any size, any search addresses
+to begin with) whose ENABLED units all have random address `≥ low`: it returns what `FN.findNext` says for
+the ENABLED units' random addresses (least address / clash / none — `FN.Spec`), within 196 commands, leaves
+every unit in initialisation mode with its search address at the unit found, and changes no unit's
+short address, initialisation state, random address, draw stream or fault flags (`view`). -/
+theorem findNext_on_bus (b : Bus) (low : Nat) (hl : low ≤ HIGH) (hR : ∀ r ∈ enR b, low ≤ r) :
+    (runBus (findNext 25 low HIGH) b).res = .ret (FN.findNext (enR b) 25 low HIGH) ∧
+    FN.Spec (enR b) HIGH (FN.findNext (enR b) 25 low HIGH) ∧
+    (runBus (findNext 25 low HIGH) b).trace.length ≤ 196 ∧
+    (∀ m, FN.findNext (enR b) 25 low HIGH = .found m → Synced (runBus (findNext 25 low HIGH) b).st m) ∧
+    view (runBus (findNext 25 low HIGH) b).st = view b := by
+  have hw : HIGH - low < 2 ^ 24 := by simp [HIGH]; omega
+  obtain ⟨h1, h2, _, h4, _⟩ := findNext_bus b 24 low HIGH hl hw (by decide) hR
+  exact ⟨h1, FN.findNext_spec (enR b) 24 low HIGH hl hw hR, h2, h4, view_findNext 25 low HIGH b⟩
+
+/-- **inner_step** — one iteration of the inner loop after the search found `m` (so every unit in
+initialisation mode has search address `m`, and exactly one ENABLED unit has random address `m`):
+PROGRAM SHORT ADDRESS `new`, VERIFY, WITHDRAW store `new` in exactly the units in initialisation mode with random
+address `m` that do store (`V.prog`) and withdraw exactly the ENABLED unit(s) with random address `m`
+(`V.wd`); in a dry run only WITHDRAW is sent and no short address changes; the answer to VERIFY is YES
+iff some such unit holds `new` and confirms — always on a fault-free bus; the number of ENABLED units drops by
+one, the number of WITHDRAWN units rises by one, every unit still ENABLED has a random address `≠ m`. -/
+theorem inner_step (b : Bus) (m new : Nat) (hs : Synced b m) (hm : m ∈ enR b) (hc : (enR b).count m = 1) :
+    view (Bus.exec (Bus.exec (Bus.exec b (.programShort new)).2 (.verifyShort new)).2 .withdraw).2
+      = ((view b).map (V.prog m new)).map (V.wd m) ∧
+    view (Bus.exec b .withdraw).2 = (view b).map (V.wd m) ∧
+    (NoFault (view b) → (Bus.exec (Bus.exec b (.programShort new)).2 (.verifyShort new)).1.isYes = true) ∧
+    ((Bus.exec (Bus.exec b (.programShort new)).2 (.verifyShort new)).1.isYes = true ↔
+      ∃ v ∈ (view b).map (V.prog m new), v.init ≠ .disabled ∧ v.short = some new ∧ v.noVerify = false) ∧
+    (∀ L, enRV L = enR b → (enRV (L.map (V.wd m))).length + 1 = (enR b).length ∧
+      nWd (L.map (V.wd m)) = nWd L + 1 ∧ ∀ r ∈ enRV (L.map (V.wd m)), r ∈ enR b ∧ r ≠ m) := by
+  have hs2 := Synced_prog b new m hs
+  have hs3 := Synced_verify _ new m hs2
+  refine ⟨?_, view_withdraw b m hs, ?_, ?_, ?_⟩
+  · rw [view_withdraw _ m hs3, view_verify, view_program b m new hs]
+  · intro nf
+    rw [verify_isYes, view_program b m new hs]
+    exact verify_confirms (view b) m new nf (by rw [← enR_view]; exact hm)
+  · rw [verify_isYes, view_program b m new hs]
+  · intro L hL
+    have h1 := wd_enRV_len L m
+    have h2 := wd_nWd L m
+    have h3 := wd_enRV_mem L m
+    rw [hL] at h1 h2 h3
+    rw [hc] at h1 h2
+    exact ⟨by omega, h2, h3⟩
+
+/-- **round_inv** — one RANDOMISE round (the inner `while low is not None` loop from `low = 0`)
+against any bus whose ENABLED units have 24-bit random addresses, any permitted list, any ghost log:
+the loop budget is never exhausted; the PROGRAM SHORT ADDRESS arguments are a prefix of the permitted list, in
+order (none in a dry run); on leaving the loop the ghost log grew by exactly those addresses and the rest of
+the permitted list is handed on; (#ENABLED + #WITHDRAWN) is unchanged and
+`|handed out| = min(#WITHDRAWN, |handed out| + |permitted left|)` is preserved; leaving as "finished" means no
+unit is ENABLED any more; pairwise distinct random addresses exclude a clash; the only exception is
+ProgramShortAddressFailure, not in a dry run, only with a faulty unit on the bus, directly after
+PROGRAM / VERIFY SHORT ADDRESS; at most `199·#ENABLED + 198` commands; a unit that is not in initialisation mode
+keeps its short address; and (not a dry run) at the end of the round every address logged in it sits in every
+storing unit in initialisation mode that has the random address found with it — the unit found. -/
+theorem round_inv (dry : Bool) (avail : List Nat) (handed : List (Nat × Nat)) (b : Bus)
+    (hwf : ∀ r ∈ enR b, r ≤ HIGH) :
+    let o := runBus (inner dry (HIGH + 2) 0 avail handed) b
+    o.res ≠ .outOfFuel ∧
+    (dry = false → progArgs o.trace <+: avail) ∧ (dry = true → progArgs o.trace = []) ∧
+    (∀ av' h', (o.res = .ret (.clash av' h') ∨ o.res = .ret (.finished av' h')) →
+      h'.map Prod.snd ++ av' = handed.map Prod.snd ++ avail ∧
+      (dry = false → progArgs o.trace ++ av' = avail) ∧
+      (enR o.st).length + nWd (view o.st) = (enR b).length + nWd (view b) ∧
+      (handed.length = min (nWd (view b)) (handed.length + avail.length) →
+        h'.length = min (nWd (view o.st)) (h'.length + av'.length))) ∧
+    (∀ av' h', o.res = .ret (.finished av' h') → enR o.st = []) ∧
+    ((enR b).Nodup → ∀ av' h', o.res ≠ .ret (.clash av' h')) ∧
+    (∀ e, o.res = .raised e → e = .ProgramShortAddressFailure ∧ dry = false ∧ ¬ NoFault (view b) ∧
+      ∃ t a, o.trace = t ++ [Cmd.programShort a, Cmd.verifyShort a]) ∧
+    o.trace.length ≤ 199 * (enR b).length + 198 ∧
+    (∃ g : Gear → Gear, o.st = b.map g ∧ ∀ u, u.init = .disabled → (g u).short = u.short) ∧
+    (dry = false → ∀ av' h', (o.res = .ret (.clash av' h') ∨ o.res = .ret (.finished av' h')) →
+      ∀ p ∈ h'.drop handed.length, ∀ v ∈ view o.st, v.init ≠ .disabled → v.random = p.1 → v.noStore = false →
+        v.short = some p.2) := by
+  dsimp only
+  have hpre : ∀ r ∈ enRV (view b), 0 ≤ r ∧ r ≤ HIGH := by
+    intro r hr; rw [← enR_view] at hr; exact ⟨Nat.zero_le _, hwf r hr⟩
+  have P := inner_bus dry (HIGH + 2) 0 avail handed b (Nat.zero_le _) (by omega) hpre
+  have S := inner_syn Bus.exec dry (HIGH + 2) 0 avail handed b
+  have hcls := (inner_only dry (HIGH + 2) 0 avail handed).trace Bus.exec b
+  have e : ∀ x : Bus, enRV (view x) = enR x := fun x => (enR_view x).symm
+  have hfin := P.fin
+  have hret := P.ret
+  have hlen := P.len
+  have hnc := P.noclash
+  simp only [e] at hfin hret hlen hnc
+  refine ⟨P.nofuel, S.pre, ?_, ?_, hfin, hnc, ?_, ?_, ?_, ?_⟩
+  · intro hd
+    apply progArgs_nil
+    intro c hc a e
+    have := hcls c hc
+    rw [e, hd] at this
+    cases this
+  · intro av' h' hr
+    obtain ⟨a1, a2⟩ := S.ret av' h' hr
+    obtain ⟨b1, _, b3⟩ := hret av' h' hr
+    exact ⟨a1, a2, b1, b3⟩
+  · intro e he
+    obtain ⟨a1, a2, a3⟩ := S.raise e he
+    exact ⟨a1, a2, fun nf => P.raise nf e he, a3⟩
+  · omega
+  · refine ⟨fun u => (runBus (inner dry (HIGH + 2) 0 avail handed) b).trace.foldl Gear.execSt u, runBus_st _ b, ?_⟩
+    intro u hu
+    exact fold_disabled_stays dry _ (fun c hc => Or.inl (Or.inr (hcls c hc))) u hu
+  · intro hd av' h' hr p hp
+    subst hd
+    obtain ⟨low', G⟩ := inner_prg handed.length (HIGH + 2) 0 avail handed b (Nat.zero_le _) hpre
+      ⟨Nat.le_refl _, by simp⟩ av' h' hr
+    exact (G.2 p hp).2
+
+/-- **commissioning_addresses** (clauses *distinct*, *permitted*, *in use*, *dry*) — for every bus with
+24-bit random addresses, every duplicate-free permitted list within 0..63, both modes, any number of rounds,
+whatever the outcome: the addresses sent in PROGRAM SHORT ADDRESS are, in order, an initial segment of the
+permitted list with the addresses in use removed (all of it when re-addressing); they are pairwise distinct,
+permitted, and — when not re-addressing — none of them is the short address of any unit on the bus before the
+run; a dry run sends none. -/
+theorem commissioning_addresses (rounds : Nat) (avail : Option (List Nat)) (re dry : Bool) (b : Bus)
+    (hwf : WF (view b)) (hnd : (avail.getD (List.range 64)).Nodup)
+    (h64 : ∀ a ∈ avail.getD (List.range 64), a < 64) :
+    let P := progArgs (runBus (commissioning rounds avail re dry) b).trace
+    let avail' := if re then avail.getD (List.range 64)
+      else (avail.getD (List.range 64)).filter (fun a => !(b.filterMap (·.short)).contains a)
+    P = avail'.take P.length ∧ P.Nodup ∧ (∀ a ∈ P, a ∈ avail.getD (List.range 64)) ∧
+    (re = false → ∀ a ∈ P, ∀ u ∈ b, u.short ≠ some a) ∧ (dry = true → P = []) := by
+  intro P avail'
+  have C := commissioning_bus rounds avail re dry b hwf hnd h64
+  have hpre : P <+: avail' := by
+    have := C.pre
+    simp only [availAfter, inUseL_view] at this
+    exact this
+  have hsub : avail'.Sublist (avail.getD (List.range 64)) := by
+    show (if re then _ else _ : List Nat).Sublist _
+    split
+    · exact List.Sublist.refl _
+    · exact List.filter_sublist
+  refine ⟨List.prefix_iff_eq_take.mp hpre, (hpre.sublist.trans hsub).nodup hnd,
+    fun a ha => (hpre.sublist.trans hsub).subset ha, ?_, C.dryP⟩
+  intro hre a ha u hu hs
+  have ha' : a ∈ avail' := hpre.sublist.subset ha
+  have e : avail' = (avail.getD (List.range 64)).filter (fun a => !(b.filterMap (·.short)).contains a) := by
+    show (if re then _ else _ : List Nat) = _
+    rw [hre]; rfl
+  rw [e, List.mem_filter] at ha'
+  have : a ∈ b.filterMap (·.short) := List.mem_filterMap.mpr ⟨u, hu, hs⟩
+  have := List.contains_iff_mem.mpr this
+  rw [this] at ha'
+  exact absurd ha'.2 (by decide)
+
+/-- **commissioning_count** — a normal, non-dry return has handed out exactly
+`min(#participants, #permitted addresses left)` addresses: participants are all units when re-addressing,
+otherwise exactly the unaddressed ones; i.e. every participant gets an address as long as permitted
+addresses remain. -/
+theorem commissioning_count (rounds : Nat) (avail : Option (List Nat)) (re : Bool) (b : Bus)
+    (hwf : WF (view b)) (hnd : (avail.getD (List.range 64)).Nodup)
+    (h64 : ∀ a ∈ avail.getD (List.range 64), a < 64) (h : List (Nat × Nat))
+    (hret : (runBus (commissioning rounds avail re false) b).res = .ret h) :
+    (progArgs (runBus (commissioning rounds avail re false) b).trace).length =
+      min (b.filter (fun u => re || u.short.isNone)).length
+        (if re then avail.getD (List.range 64)
+         else (avail.getD (List.range 64)).filter (fun a => !(b.filterMap (·.short)).contains a)).length := by
+  have C := commissioning_bus rounds avail re false b hwf hnd h64
+  have := C.count h hret rfl
+  simp only [availAfter, inUseL_view] at this
+  rw [this]
+  congr 1
+  rw [parts, view, List.countP_map, List.countP_eq_length_filter]
+  rfl
+
+/-- **commissioning_raise** (ProgramShortAddressFailure) — the only exception `Commissioning` can end with is
+ProgramShortAddressFailure; it is raised only when not a dry run, only directly after PROGRAM SHORT ADDRESS a /
+VERIFY SHORT ADDRESS a (the unconfirmed address), and only on a bus with a unit that does not store or does
+not confirm.  (The converse — an unconfirmed VERIFY raises — is `inner_step` + the model's
+`if r.isYes … else fail`, used in `afterFound_bus`.) -/
+theorem commissioning_raise (rounds : Nat) (avail : Option (List Nat)) (re dry : Bool) (b : Bus)
+    (hwf : WF (view b)) (hnd : (avail.getD (List.range 64)).Nodup)
+    (h64 : ∀ a ∈ avail.getD (List.range 64), a < 64) (e : PyErr)
+    (he : (runBus (commissioning rounds avail re dry) b).res = .raised e) :
+    e = .ProgramShortAddressFailure ∧ dry = false ∧ (∃ u ∈ b, u.noStore = true ∨ u.noVerify = true) ∧
+    ∃ t a, (runBus (commissioning rounds avail re dry) b).trace = t ++ [Cmd.programShort a, Cmd.verifyShort a] := by
+  have C := commissioning_bus rounds avail re dry b hwf hnd h64
+  obtain ⟨a1, a2, a3, a4⟩ := C.raise e he
+  refine ⟨a1, a2, ?_, a4⟩
+  apply Classical.byContradiction
+  intro hno
+  apply a3
+  intro v hv
+  simp only [view, List.mem_map] at hv
+  obtain ⟨u, hu, rfl⟩ := hv
+  have h1 : ¬ u.noStore = true := fun h => hno ⟨u, hu, Or.inl h⟩
+  have h2 : ¬ u.noVerify = true := fun h => hno ⟨u, hu, Or.inr h⟩
+  simp only [Gear.v]
+  exact ⟨by simpa using h1, by simpa using h2⟩
+
+/-- **unconfirmed_verify_raises** (ProgramShortAddressFailure, the "if" direction) — in every environment: the
+inner-loop body after the search found a unit (`afterFound`; `inner_eq` shows by `rfl` that this *is* the body
+of `inner`), not a dry run, with a permitted address `new` left: it sends PROGRAM SHORT ADDRESS `new`, VERIFY SHORT
+ADDRESS `new`, and if the answer is not YES it raises ProgramShortAddressFailure at once. -/
+theorem unconfirmed_verify_raises {σ : Type} (step : σ → Cmd → Resp × σ) (fuel m new : Nat) (avail' : List Nat)
+    (handed : List (Nat × Nat)) (s : σ)
+    (h : (step (step s (.programShort new)).2 (.verifyShort new)).1.isYes = false) :
+    ((afterFound false fuel m (new :: avail') handed).run step s).res = .raised .ProgramShortAddressFailure ∧
+    ((afterFound false fuel m (new :: avail') handed).run step s).trace =
+      [Cmd.programShort new, Cmd.verifyShort new] := by
+  simp [afterFound, Prog.run, Prog.tell, h]
+
+/-- **commissioning_bound** — the run sends at most `rounds·(n+1)·202 + 140` commands, `rounds` the number
+of RANDOMISE commands sent, `n` the number of units. -/
+theorem commissioning_bound (rounds : Nat) (avail : Option (List Nat)) (re dry : Bool) (b : Bus)
+    (hwf : WF (view b)) (hnd : (avail.getD (List.range 64)).Nodup)
+    (h64 : ∀ a ∈ avail.getD (List.range 64), a < 64) :
+    (runBus (commissioning rounds avail re dry) b).trace.length ≤
+      countRandomise (runBus (commissioning rounds avail re dry) b).trace * (b.length + 1) * 202 + 140 := by
+  have C := commissioning_bus rounds avail re dry b hwf hnd h64
+  have h := C.len
+  have hl : (view b).length = b.length := by simp [view]
+  rw [hl] at h
+  have : countRandomise (runBus (commissioning rounds avail re dry) b).trace * (199 * b.length + 199) ≤
+      countRandomise (runBus (commissioning rounds avail re dry) b).trace * (b.length + 1) * 202 := by
+    rw [Nat.mul_assoc]
+    exact Nat.mul_le_mul_left _ (by omega)
+  omega
+
+/-- **commissioning_terminates** — the Python loop has no bound on the number of RANDOMISE rounds; the model
+follows `rounds` of them.  If the random addresses the participants hold after `k + 1` RANDOMISE commands
+(`randAfter (k+1)`: the `(k+1)`-th draw of the unit's stream, the last one when the stream is shorter) are
+pairwise distinct for some `k < rounds` — the draw streams eventually separate —, that budget is not
+exhausted: the run returns or raises within `k + 1` rounds. -/
+theorem commissioning_terminates (rounds : Nat) (avail : Option (List Nat)) (re dry : Bool) (b : Bus) (k : Nat)
+    (hwf : WF (view b)) (hk : k < rounds)
+    (hsep : ((b.filter (fun u => re || u.short.isNone)).map
+      (fun u => randAfter (k + 1) u.random u.draws)).Nodup) :
+    (runBus (commissioning rounds avail re dry) b).res ≠ .outOfFuel :=
+  GearSeq.commissioning_terminates rounds avail re dry b k hwf hk (by rw [partRand_view]; exact hsep)
+
+/-- **commissioning_holds** — a non-dry run on a fault-free bus that returns after a single RANDOMISE round:
+for every address `a`, the number of participants (units of the initial bus, position by position, that are
+re-addressed / were unaddressed) whose final short address is `a` equals the number of times `a` was handed
+out — so, the addresses handed out being pairwise distinct, the participants hold exactly those addresses,
+one each.  (After two or more rounds this need not hold: last `example`.) -/
+theorem commissioning_holds (rounds : Nat) (avail : Option (List Nat)) (re : Bool) (b : Bus)
+    (hwf : WF (view b)) (hnf : NoFault (view b)) (h : List (Nat × Nat))
+    (hr : (runBus (commissioning rounds avail re false) b).res = .ret h)
+    (hc : countRandomise (runBus (commissioning rounds avail re false) b).trace = 1) (a : Nat) :
+    b.countP (fun u => (re || u.short.isNone) &&
+        (((runBus (commissioning rounds avail re false) b).trace.foldl Gear.execSt u).short == some a)) =
+      (progArgs (runBus (commissioning rounds avail re false) b).trace).count a :=
+  GearSeq.commissioning_holds rounds avail re b hwf hnf h hr hc a
+
+/-- **commissioning_spec** — for every bus of any size with 24-bit random addresses, any pre-existing short
+addresses (duplicates included), every duplicate-free permitted list within 0..63, both re-address modes, dry run
+or not, and every number of rounds the model follows such that the run does not exhaust them (that is: the last
+round followed is clash-free): the property's clause checker finds nothing —
+ends / raise / distinct / permitted / inuse / others / dry / count / holds / bound all hold. -/
+theorem commissioning_spec (rounds : Nat) (avail : Option (List Nat)) (re dry : Bool) (b : Bus)
+    (hwf : WF (view b)) (hnd : (avail.getD (List.range 64)).Nodup)
+    (h64 : ∀ a ∈ avail.getD (List.range 64), a < 64)
+    (hterm : (runBus (commissioning rounds avail re dry) b).res ≠ .outOfFuel) :
+    commCheck b avail re dry (runBus (commissioning rounds avail re dry) b).void = [] :=
+  commissioning_spec_aux rounds avail re dry b hwf hnd h64 hterm
+
+/-- **commissioning_spec_separating** — the same under an explicit hypothesis on the random-draw streams:
+the participants' random addresses after `k + 1 ≤ rounds` RANDOMISE commands are pairwise distinct. -/
+theorem commissioning_spec_separating (rounds : Nat) (avail : Option (List Nat)) (re dry : Bool) (b : Bus) (k : Nat)
+    (hwf : WF (view b)) (hnd : (avail.getD (List.range 64)).Nodup)
+    (h64 : ∀ a ∈ avail.getD (List.range 64), a < 64) (hk : k < rounds)
+    (hsep : ((b.filter (fun u => re || u.short.isNone)).map
+      (fun u => randAfter (k + 1) u.random u.draws)).Nodup) :
+    commCheck b avail re dry (runBus (commissioning rounds avail re dry) b).void = [] :=
+  commissioning_spec_aux rounds avail re dry b hwf hnd h64
+    (GearSeq.commissioning_terminates rounds avail re dry b k hwf hk (by rw [partRand_view]; exact hsep))
+
+/-- **commissioning_others** — not re-addressing: the final bus is the initial bus, unit by unit, and every
+unit that had a short address (a non-participant) still has it. -/
+theorem commissioning_others (rounds : Nat) (avail : Option (List Nat)) (dry : Bool) (b : Bus) :
+    ∃ g : Gear → Gear, (runBus (commissioning rounds avail false dry) b).st = b.map g ∧
+      ∀ u, u.short ≠ none → (g u).short = u.short :=
+  GearSeq.commissioning_others rounds avail dry b
+
+/-- **commissioning_dry** — a dry run changes no unit's short address (and sends no PROGRAM SHORT ADDRESS:
+`commissioning_addresses`). -/
+theorem commissioning_dry (rounds : Nat) (avail : Option (List Nat)) (re : Bool) (b : Bus) :
+    ∃ g : Gear → Gear, (runBus (commissioning rounds avail re true) b).st = b.map g ∧
+      ∀ u, (g u).short = u.short :=
+  GearSeq.commissioning_dry rounds avail re b
+
 /-! ## Non-vacuity -/
 
 example : FN.findNext [7, 3, 9] 25 0 0xffffff = .found 3 := by decide
@@ -83,5 +388,55 @@ example : FN.findNext [7, 3, 3] 25 0 0xffffff = .clash := by decide
 example : FN.findNext [0, 0xffffff] 25 0 0xffffff = .found 0 := by decide
 example : FN.findNext [0xffffff] 25 1 0xffffff = .found 0xffffff := by decide
 example : FN.findNext [] 25 0 0xffffff = .none := by decide
+
+
+/-- four units, one already addressed (0), two of the others clash on 1000 in the first round -/
+def exBus : Bus :=
+  [{ draws := [5] }, { draws := [1000, 777] }, { short := some 0, draws := [9] }, { draws := [1000, 778] }]
+
+example : WF (view exBus) := by
+  intro v hv
+  simp [exBus, view, Gear.v] at hv
+  rcases hv with rfl | rfl | rfl | rfl <;> simp [WFv, HIGH]
+
+set_option maxRecDepth 100000 in
+example : (runBus (commissioning 3 none false false) exBus).res = .ret [(5, 1), (777, 2), (778, 3)] ∧
+    progArgs (runBus (commissioning 3 none false false) exBus).trace = [1, 2, 3] ∧
+    (runBus (commissioning 3 none false false) exBus).st.map (·.short) = [some 1, some 2, some 0, some 3] ∧
+    countRandomise (runBus (commissioning 3 none false false) exBus).trace = 2 := by
+  decide +kernel
+
+/- the second draws of the three participants of `exBus` are pairwise distinct: `commissioning_terminates` applies with k = 1 -/
+example : ((exBus.filter (fun u => false || u.short.isNone)).map
+    (fun u => randAfter 2 u.random u.draws)).Nodup := by decide
+
+set_option maxRecDepth 100000 in
+example : commCheck exBus none false false (runBus (commissioning 3 none false false) exBus).void = [] := by
+  decide +kernel
+
+/- random addresses 0 and 0xFFFFFF; re-addressing with the permitted list [9, 4] -/
+set_option maxRecDepth 100000 in
+example : (runBus (commissioning 1 (some [9, 4]) true false)
+      [{ short := some 3, draws := [0xffffff] }, { draws := [0] }, { short := some 3, draws := [70000] }]).st.map (·.short)
+    = [none, some 9, some 4] := by
+  decide +kernel
+
+/- a dry run programs nothing; a unit that does not store its address raises ProgramShortAddressFailure -/
+set_option maxRecDepth 100000 in
+example : progArgs (runBus (commissioning 3 none false true) exBus).trace = [] ∧
+    (runBus (commissioning 3 none false true) exBus).st.map (·.short) = exBus.map (·.short) ∧
+    (runBus (commissioning 1 none false false) [{ draws := [5], noStore := true }]).res
+      = .raised .ProgramShortAddressFailure := by
+  decide +kernel
+
+/- the re-draw hazard of DESIGN §6: the unit addressed in round 1 re-draws, in round 2, the random address
+of a unit found later and is programmed again — the addresses handed out are distinct, two units share one -/
+set_option maxRecDepth 100000 in
+example : progArgs (runBus (commissioning 2 none false false)
+      [{ draws := [5, 777] }, { draws := [1000, 776] }, { draws := [1000, 777] }]).trace = [0, 1, 2] ∧
+    (runBus (commissioning 2 none false false)
+      [{ draws := [5, 777] }, { draws := [1000, 776] }, { draws := [1000, 777] }]).st.map (·.short)
+      = [some 2, some 1, some 2] := by
+  decide +kernel
 
 end DaliVerif.Props.C07
